@@ -317,36 +317,13 @@ class Typestate(object):
         m = self.m
         g = m.cfg(fname)
         for lid in node.loops:
-            lp = g.loops[lid]
-            if lp.kind != 'for':
+            cl = m.counted_loop(fname, lid, at=node.id)
+            if cl is None:
                 continue
-            init, condvar, cond, inc, body = lp.x.kids
-            if init is None or cond is None or inc is None:
+            ref, name, bound = cl
+            if ('[%s]' % name) not in p:
                 continue
-            i0 = strip(init)
-            if not (i0.k == 'bin' and i0.op == '=' and const_eval(i0.kids[1]) == 0):
-                continue
-            iv = strip(i0.kids[0])
-            c0 = strip(cond)
-            if not (c0.k == 'bin' and c0.op == '<' and strip(c0.kids[0]).k == 'ref'
-                    and strip(c0.kids[0]).ref == iv.ref):
-                continue
-            inc0 = strip(inc)
-            if not (inc0.k == 'un' and inc0.op in ('++', 'post++') and strip(inc0.kids[0]).ref == iv.ref):
-                continue
-            bound = const_eval(c0.kids[1], m)
-            if bound is None or ('[%s]' % iv.name) not in p:
-                continue
-            # the loop variable is not modified in the body
-            modified = False
-            for n in walk(body):
-                if n.k == 'bin' and n.op.endswith('=') and n.op not in ('==', '!=', '<=', '>='):
-                    l = strip(n.kids[0])
-                    if l.k == 'ref' and l.ref == iv.ref:
-                        modified = True
-            if modified:
-                continue
-            base = p.split('[%s]' % iv.name)[0]
+            base = p.split('[%s]' % name)[0]
             fldname = base.replace('->', '.').split('.')[-1]
             for rec, flds in m.records.items():
                 for (fn_, ty, cty) in flds:
@@ -899,8 +876,105 @@ def run(ctx):
 
     _h4(ctx, m, ts, results, handles, props_of)
     _reset_releases_all(ctx, m, ts, handles, props_of)
+    _oneshot_expiry(ctx, m, handles, props_of)
     ctx.table('C20', 'RF3.release_all', dict((k, sorted('%s.%s' % f for f in fl)) for k, fl in release_all(ts).items()))
     return ts
+
+
+def _storing_nodes(m, fname, fld, memo, depth=0):
+    """nodes of fname that store to handle field fld on every execution: a direct store, or a direct call to a
+    function all of whose paths store it"""
+    g = m.cfg(fname)
+    out = set()
+    for nd in g.nodes:
+        if nd.x is None:
+            continue
+        if m.field_stores(nd.x, fld):
+            out.add(nd.id)
+            continue
+        if depth < 3:
+            for c in walk(nd.x):
+                if c.k == 'call':
+                    nm = callee_name(c)
+                    if nm in m.funcs and nm != fname and _must_store(m, nm, fld, memo, depth + 1):
+                        out.add(nd.id)
+    return out
+
+
+def _must_store(m, fname, fld, memo, depth):
+    if (fname, fld) in memo:
+        return memo[(fname, fld)]
+    memo[(fname, fld)] = False
+    g = m.cfg(fname)
+    storing = _storing_nodes(m, fname, fld, memo, depth)
+    seen = set()
+    st = [g.entry.id]
+    ok = True
+    while st:
+        a = st.pop()
+        if a in seen or a in storing:
+            continue
+        seen.add(a)
+        if a == g.exit.id:
+            ok = False
+            break
+        st.extend(t for (t, lab) in g.nodes[a].succ)
+    memo[(fname, fld)] = ok
+    return ok
+
+
+def _oneshot_expiry(ctx, m, handles, props_of):
+    """H5: when a one-shot action fires, the timer manager has already returned it to the pool: the handle field
+    still holds the (now free, soon re-used) id.  The action's callback must redefine its own handle (to -1 or to
+    a newly created action) on every path to its exit, and must not hand the expired id to COTmrDelete first -
+    otherwise a later delete through this handle removes whichever action re-uses the slot."""
+    n_cb = 0
+    for cb, flds in sorted(handles.cb_oneshot.items()):
+        if cb not in m.funcs:
+            continue
+        (fld,) = tuple(flds)
+        n_cb += 1
+        g = m.cfg(cb)
+        props = props_of(fld, ['C10'])
+        storing = _storing_nodes(m, cb, fld, {})
+        # exit reachable from entry without passing a store to the handle?
+        seen = set()
+        st = [g.entry.id]
+        leak = None
+        while st:
+            a = st.pop()
+            if a in seen or a in storing:
+                continue
+            seen.add(a)
+            if a == g.exit.id:
+                leak = a
+                break
+            st.extend(t for (t, lab) in g.nodes[a].succ)
+        site = '%s: one-shot callback %s of %s.%s' % (m.loc(cb, m.funcs[cb].line), cb, fld[0], fld[1])
+        if leak is not None:
+            ctx.ob(props, 'RF3-H5', cb, site, None)
+            ctx.find(props, 'RF3-H5', cb, 'H5:%s.%s:expired-id-kept' % fld, m.loc(cb, m.funcs[cb].line),
+                     '%s is the one-shot callback of %s.%s: when it runs the action is already back in the pool, but there is '
+                     'a path to its exit that never redefines the handle; the stale id stays in the handle and a later '
+                     'COTmrDelete through it removes whichever action re-uses the slot (e.g. the heartbeat producer)'
+                     % (cb, fld[0], fld[1]), note=not props)
+        else:
+            ctx.ob(props, 'RF3-H5', cb, site, 'own handle redefined on every path to the exit')
+        # deletes of the expired id before the first redefinition
+        bad = None
+        for nid in seen:
+            nd = g.nodes[nid]
+            if nd.x is None:
+                continue
+            for c in walk(nd.x):
+                if c.k == 'call' and callee_name(c) == 'COTmrDelete' and len(c.kids) > 2 and _last_field(c.kids[2]) == fld:
+                    bad = nd
+        if bad is not None:
+            ctx.ob(props, 'RF3-H5', cb, site + ' (no delete of the expired id)', None)
+            ctx.find(props, 'RF3-H5', cb, 'H5:%s.%s:expired-id-deleted' % fld, m.loc(cb, bad.line),
+                     '%s deletes its own, already expired one-shot action id before redefining the handle' % cb, note=not props)
+    ctx.inst('RF3.oneshot-callbacks', n_cb)
+    ctx.require_min(sorted(set(p for v in HANDLE_PROPS.values() for p in v)), 'RF3-H5', n_cb, 3, 'one-shot timer callbacks')
 
 
 # handles that are armed only for members of a linked chain: (handle field) -> chain head field
